@@ -221,6 +221,16 @@ class WebSocketReader:
                     "Continuation frame for non started message",
                 )
 
+            # A new TEXT/BINARY frame while a fragmented message is still open
+            # (RFC 6455 5.4): checked on the open opcode, so it also holds when
+            # the fragments received so far were empty.
+            if opcode != OP_CODE_CONTINUATION and self._opcode != OP_CODE_NOT_SET:
+                raise WebSocketError(
+                    WSCloseCode.PROTOCOL_ERROR,
+                    "The opcode in non-fin frame is expected "
+                    f"to be zero, got {opcode!r}",
+                )
+
             # load text/binary
             if not fin:
                 # got partial frame payload
